@@ -388,7 +388,15 @@ def sweep_cases(tier_, after=False):
     if tier_ == "quick":
         d4 = [(e, i) for (e, i) in d4 if len(i) <= 2 or len(i) == 4]
     cases += [(NAMES4, e, i) for (e, i) in d4]
-    return [digraph_project("g%d" % k, nm, e, i, after=after) for k, (nm, e, i) in enumerate(cases)]
+    projs = [digraph_project("g%d" % k, nm, e, i, after=after) for k, (nm, e, i) in enumerate(cases)]
+    # the same file requested twice, by source name and by output name (acyclic 3-file cases)
+    extra = []
+    for k, (nm, e, i) in enumerate(cases):
+        if len(nm) == 3 and not any(can_reach_cycle(v, e) for v in range(3)):
+            q = digraph_project("gd%d" % k, nm, e, i, after=after)
+            q.inputs = q.inputs + [gen.out_name(nm[i[0]]).lstrip("/"), nm[i[0]].lstrip("/")]
+            extra.append(q)
+    return projs + extra
 
 def run_sweep(tier_, after=False, cap=None):
     projs = sweep_cases(tier_, after)
@@ -968,12 +976,34 @@ def check_C06(tier_, sd, consts_ok, consts_detail):
     xcheck(cov, violations, "C06", steps, om)
     return {"coverage": cov, "violations": violations}
 
+def escaping_temp_projects(rng, n, tag):
+    """sources whose temp targets lie in a sub-directory, in the parent directory, and OUTSIDE the base directory"""
+    out = []
+    for k in range(n):
+        r = rng.fork("%s%d" % (tag, k))
+        p = Project("%s%d" % (tag, k))
+        p.dirs = ["/ws/proj/sub", "/ws/shared", "/ws/proj/deep/er"]
+        src = r.choice(["/ws/proj/page.md.txtpp", "/ws/proj/deep/page.txtpp", "/ws/proj/deep/er/p.txtpp.md"])
+        up = "../" * (len(src.split("/")) - 3)
+        targets = [up + "shared/snippet.txt", "sub_local.tmp"] + (["sub/local.txt"] if src == "/ws/proj/page.md.txtpp" else []) + [up + "../ws/shared/roundabout.txt"]
+        L = ["text"]
+        for j, t in enumerate(r.shuffle(targets)[: 1 + r.below(len(targets))]):
+            L += ["%sTXTPP#temp %s" % ("-=+~"[j % 4], t), "%sbody %d" % ("-=+~"[j % 4], j), ""]
+        L += ["/TXTPP#include %sshared/keep.txt" % up, "end"]
+        p.files = [(src, ("\n".join(L) + "\n").encode()), ("/ws/shared/keep.txt", b"kept\n"), ("/ws/other.txt", b"other\n")]
+        p.srcs = [src]; p.deps = {src: []}
+        p.base = r.choice(["/ws/proj", "/ws/proj", "/ws"]); p.inputs = ["."]; p.recursive = True
+        p.sched = [0] * 8; p.stats = collections.Counter({"escaping-temp:project": 1})
+        out.append(p)
+    return out
+
 def check_C07(tier_, sd, consts_ok, consts_detail):
     rng = Rng(sd).fork("C07")
     n = 350 if tier_ == "quick" else 3000
     # sources may contain erroneous directives: clean must still succeed; build may fail (then only "never runs, removes only generated" is checked)
     projs = gen_batch(rng, n, modes=(0,), allow_errors=True, markers=True)
     for p in projs: p.inputs = ["."]; p.recursive = True
+    projs += escaping_temp_projects(rng, 40 if tier_ == "quick" else 300, "esc")
     bi, bm = both(projs)
     cl = []
     for p, a in zip(projs, bi):
@@ -1000,8 +1030,8 @@ def check_C07(tier_, sd, consts_ok, consts_detail):
             nontriv.add(tuple(sorted(set(k for k, v in a["F"].items() if v is not None) - set(init))))
         if (c["verdict"], c["F"], c["U"]) != (m["verdict"], m["F"], m["U"]) and len(violations) < 5:
             violations.append(proj_violation("C07", "clean differs from the model (tree or touched set)", q, c, m, found=False))
-    cov = {"evaluations": 2 * n, "distinct_nontrivial": len(nontriv),
-           "rule": "generated projects (erroneous directives included, counting commands with marker files) are built, then cleaned with the same inputs (whole tree, recursive); "
+    cov = {"evaluations": 2 * len(projs), "distinct_nontrivial": len(nontriv),
+           "rule": "generated projects (erroneous directives included, counting commands with marker files; plus projects whose temp targets lie in sub-directories, parent directories and outside the base directory) are built, then cleaned with the same inputs (whole tree, recursive); "
                    "checked on the implementation: clean succeeds, writes no marker (runs nothing), deletes no .txtpp, leaves every non-generated file byte-identical, and after a successful build restores the tree exactly; "
                    "distinct_nontrivial = distinct sets of generated paths that clean had to remove",
            "successful_build_then_clean": nrest, "input_distribution": dist_of(projs),
@@ -1127,6 +1157,8 @@ def check_C10(tier_, sd, consts_ok, consts_detail):
     rng = Rng(sd).fork("C10")
     n = 500 if tier_ == "quick" else 4000
     projs = gen_batch(rng, n, modes=(0, 1, 2, 3), allow_errors=True)
+    esc = escaping_temp_projects(rng, 40 if tier_ == "quick" else 300, "esc")
+    for k, p in enumerate(esc): p.mode = k % 4
     for p in projs:
         have = {f for f, _ in p.files}
         for f, c in DECOYS:
@@ -1144,13 +1176,20 @@ def check_C10(tier_, sd, consts_ok, consts_detail):
     pi, pm = both(pre)
     for p, a in zip(first, pi):
         p.files, p.dirs = tree_of(a)
+    # the escaping-temp projects: half of them on a built tree
+    epre = [p.copy() for p in esc[::2]]
+    for q in epre: q.mode = 0; q.id += ".pre"
+    ei, em = both(epre)
+    for p, a in zip(esc[::2], ei): p.files, p.dirs = tree_of(a)
+    projs = projs + esc
     oi, om = both(projs)
     violations = []; modes = collections.Counter(); nontriv = set()
     for p, a, b in zip(projs, oi, om):
         modes[(["build", "needed", "clean", "verify"][p.mode], a["verdict"])] += 1
         before = dict(p.files)
         srcs = set(p.srcs)
-        allowed = {gen.out_name(s) for s in p.srcs} | {k for k in set(a["F"]) | set(before) if re.search(r"/[a-f]_t\d\.tmp$", k)}
+        allowed = {gen.out_name(s) for s in p.srcs} | {k for k in set(a["F"]) | set(before) if re.search(r"/[a-f]_t\d\.tmp$", k)} \
+                  | {"/ws/shared/snippet.txt", "/ws/shared/roundabout.txt", "/ws/proj/sub/local.txt"} | {k for k in set(a["F"]) | set(before) if k.endswith("/sub_local.tmp")}
         for t in a["U"]:
             if t not in allowed:
                 if len(violations) < 5: violations.append(proj_violation("C10", "txtpp created, modified or deleted %s, which is neither an output of a processed source nor a temp target" % t, p, a, b)); break
@@ -1532,11 +1571,19 @@ def check_C04(tier_, sd, consts_ok, consts_detail):
     try:
         big = ("line of text number %d\n" * 1)
         # (--needed onto /dev/full is deliberately absent: reading that device back never ends - special files are outside every model here)
-        for case in ("devfull-small", "devfull-large", "fsize-limit", "readonly-dir"):
+        for case in ("devfull-small", "devfull-large", "fsize-limit", "readonly-dir", "bigchunk-fsize16", "bigchunk-fsize24", "bigchunk-devfull"):
             cd = os.path.join(d, case); os.makedirs(cd)
             nlines = 5 if case == "devfull-small" else 40000
             open(os.path.join(cd, "a.txt.txtpp"), "w").write("".join("line of text number %d\n" % i for i in range(nlines)))
             args = [CLI, "-q", "a.txt"]; pre = None; exp_fail = True
+            if case.startswith("bigchunk"):
+                # one chunk of 40 KiB (an include) goes around the BufWriter buffer in a single write; the limit falls inside it;
+                # with -n nothing is written after it, so only a short write can reveal the fault
+                open(os.path.join(cd, "big.txt"), "w").write("".join("big line %05d %s\n" % (i, "z" * 20) for i in range(1200))[:-1])
+                open(os.path.join(cd, "a.txt.txtpp"), "w").write("header\nTXTPP#include big.txt\n")
+                nlines = 1200
+                if case == "bigchunk-devfull": os.symlink("/dev/full", os.path.join(cd, "a.txt")); args = [CLI, "-q", "-n", "a.txt"]
+                else: args = ["sh", "-c", "trap '' XFSZ; ulimit -f %s; exec %s -q -n a.txt" % (case[-2:], CLI)]
             if case in ("devfull-small", "devfull-large"):
                 os.symlink("/dev/full", os.path.join(cd, "a.txt"))
             elif case == "fsize-limit":
